@@ -13,6 +13,10 @@ Exploration, impl-level oracle in harness/h08 (decides the property on the code)
  (ii)  every crate with an injected violation (use after move incl. re-binding of a match / if-let /
        let-else scrutinee; missing drop over {no capability, PanicDestruct only} x {return, panic,
        panicable call}; out-of-gas drops in loops / recursion when gas is on) has an error;
+       also a family over hand-written Copy / Drop / Destruct / PanicDestruct impls (simpl.rs: generic
+       or specialised, correct / missing / wrong bounds, wrappers of T, tuples, Array, Box, Span,
+       snapshots, Nullable, nested generics, at capable and incapable arguments): a use that needs a
+       capability the instantiated type truly lacks must be diagnosed, at the impl or at the use;
  (iii) path oracle (spec.rs): no function of a crate without error diagnostics has a path with a
        double move or an undroppable unused value (forward value semantics, from the property text)."""
 import json
